@@ -55,6 +55,43 @@ func corpus() []updsim.History {
 		h.Ops = append([]updsim.Op{{K: updsim.OpStartup, Vis: []int{0, 0, 5}}}, updsim.FinalOps(cfg, []int{4, 0, 9})...)
 		hs = append(hs, h)
 	}
+	// a difference slice that carries only new_encrypted_messages (log m m e e m, slices of two)
+	{
+		cfg := updsim.Config{Base: []int{0, 0}, SliceLim: 2}
+		h := updsim.History{Cfg: cfg, Log: []updsim.Entry{E(1, updsim.KMsg, 0, 1, 1), E(2, updsim.KMsg, 0, 2, 1),
+			E(3, updsim.KEnc, 1, 1, 1), E(4, updsim.KEnc, 1, 2, 1), E(5, updsim.KMsg, 0, 3, 1)}}
+		h.Ops = append([]updsim.Op{{K: updsim.OpStartup, Vis: []int{0, 0}}}, updsim.FinalOps(cfg, []int{3, 2})...)
+		hs = append(hs, h)
+	}
+	// a channel difference sliced by the server below the client's limit
+	{
+		cfg := updsim.Config{Base: []int{0, 0, 0}, CSliceLim: 2}
+		h := updsim.History{Cfg: cfg}
+		for i := 1; i <= 5; i++ {
+			h.Log = append(h.Log, E(i, updsim.KCMsg, 2, i, 1))
+		}
+		h.Ops = append([]updsim.Op{{K: updsim.OpStartup, Vis: []int{0, 0, 0}}}, updsim.FinalOps(cfg, []int{0, 0, 5})...)
+		hs = append(hs, h)
+	}
+	// updatePtsChanged as the only recovery signal, in every container position: unnumbered; numbered and
+	// alone; first / last of a reordered batch applied together by applySeq
+	for variant := 1; variant <= 3; variant++ {
+		for _, numbered := range []bool{false, true} {
+			cfg := updsim.Config{Base: []int{0, 0}}
+			h := updsim.History{Cfg: cfg, Log: []updsim.Entry{E(1, updsim.KMsg, 0, 1, 1), E(2, updsim.KMsg, 0, 2, 1), E(3, updsim.KMsg, 0, 3, 1)}}
+			cid := 100
+			h.Ops = append([]updsim.Op{{K: updsim.OpStartup, Vis: []int{0, 0, 0}}}, updsim.FinalOpsVariant(cfg, []int{3, 0, 0}, variant, numbered, &cid)...)
+			hs = append(hs, h)
+		}
+	}
+	// a channel without storage record, tracked by its first pushed update
+	{
+		cfg := updsim.Config{Base: []int{0, 0, 4}, Untracked: []bool{false, false, true}}
+		h := updsim.History{Cfg: cfg, Log: []updsim.Entry{E(1, updsim.KCMsg, 2, 5, 1), E(2, updsim.KCMsg, 2, 6, 1), E(3, updsim.KCOther, 2, 7, 1)}}
+		h.Ops = []updsim.Op{{K: updsim.OpStartup, Vis: []int{0, 0, 4}}, {K: updsim.OpPush, Vis: []int{0, 0, 6}, Items: []int{1}, CID: 1}}
+		h.Ops = append(h.Ops, updsim.FinalOps(cfg, []int{0, 0, 7})...)
+		hs = append(hs, h)
+	}
 	return hs
 }
 
@@ -110,7 +147,7 @@ func main() {
 		if res.Interference {
 			c.Count("timer-interference(no correspondence)")
 		} else {
-			sh, ix = c.Case(updsim.CoqCase(res, nil), res.H)
+			sh, ix = c.Case(updsim.CoqCase(res, nil, nil), res.H)
 		}
 		// non-trivial: some entry was lost in transit or arrived out of order, and a difference delivered something
 		pushed := map[int]bool{}
@@ -144,6 +181,6 @@ func main() {
 			}
 		}
 	}
-	c.Obs.Rule = "finite server logs (<=12 entries over pts, qts and up to 2 channel sequences: messages, pts/qts-bearing other updates, channel messages and channel other updates, plain updates) pushed with loss, delay (reordering), duplication, grouped or single, with differences sliced / too long by configuration, mid-history and final recovery (updatesTooLong, updateChannelTooLong) and real 500 ms gap timers; non-trivial = distinct history in which at least one entry was never pushed and a non-empty difference was served"
+	c.Obs.Rule = "finite server logs (<=12 entries over pts, qts and up to 2 channel sequences: messages, pts/qts-bearing other updates, channel messages and channel other updates, plain updates) pushed with loss, delay (reordering), duplication, grouped or single, in unnumbered or numbered containers (seq gaps, reordered containers applied as one applySeq batch), containers optionally carrying updatePtsChanged, channels tracked from the start or by their first pushed update, with differences sliced (prefixes of the merged pts/qts log, so slices may carry only encrypted messages / only other updates) / too long by configuration, mid-history and final recovery (updatesTooLong, or updatePtsChanged in an unnumbered / numbered / reordered container; updateChannelTooLong) and real 500 ms gap timers; every history runs under a watchdog (a hanging manager is a manager-stuck violation with replay); non-trivial = distinct history in which at least one entry was never pushed and a non-empty difference was served"
 	c.Finish()
 }
